@@ -51,6 +51,36 @@ Definition pinit (r : role) (idk : bool) : ps := mkPs (of_cs (init_cs r idk)) (i
    fuel or consumed the whole write-fault countdown range *)
 Definition p_ok (s : ps) : bool := N.eqb (m_viol (ps_m s)) 0.
 
+(* shape of one step's observations, used by the data-level proof of C06: a well-formed
+   SPINE frame is delivered (reader set) or buffered (not yet), nothing else is; the buffer
+   is flushed exactly in the step that sets the reader; the reader is never unset; no crash *)
+Definition has (f : cobs -> bool) (l : list cobs) : bool := existsb f l.
+Definition is_deliver o := match o with BDeliver => true | _ => false end.
+Definition is_buffer o := match o with BBuffer => true | _ => false end.
+Definition is_flush o := match o with BFlush => true | _ => false end.
+Definition is_setup o := match o with BSetup => true | _ => false end.
+Definition is_crash o := match o with BPanic | BHang | BFuel => true | _ => false end.
+Definition is_dgok (e : cev) : bool := match e with CRecv DgOk _ _ => true | _ => false end.
+
+Definition shape_ok (c : cs) (e : cevx) : bool :=
+  let '(c', l) := cstep c e in
+  negb (dead c') && negb (has is_crash l) &&
+  if is_dgok (ev e) then
+    Bool.eqb (reader c') (reader c) &&
+    match l with
+    | [BDeliver; BSnap _ _ _ _ _] => reader c
+    | [BBuffer; BSnap _ _ _ _ _] => negb (reader c)
+    | _ => false
+    end
+  else
+    negb (has is_deliver l) && negb (has is_buffer l)
+    && Bool.eqb (has is_flush l) (reader c' && negb (reader c))
+    && Bool.eqb (has is_setup l) (reader c' && negb (reader c))
+    && implb (reader c) (reader c').
+
+Definition p_shape (s : ps) : bool :=
+  negb (p_dead (ps_c s)) && forallb (shape_ok (to_cs (ps_c s))) (events_for (to_cs (ps_c s))).
+
 Definition table_of (r : role) (idk : bool) : table ps * bool :=
   explore ps_beq hash_ps pnext 400 (pinit r idk).
 
@@ -70,7 +100,7 @@ Definition cert_ok (r : role) (idk : bool) : bool :=
   let t := table_for r idk in
   mem ps_beq hash_ps (pinit r idk) t
   && closed_check ps_beq hash_ps pnext t
-  && forallb p_ok (members t).
+  && forallb p_ok (members t) && forallb p_shape (members t).
 
 Lemma cert_SF : cert_ok Server false = true. Proof. vm_compute. reflexivity. Qed.
 Lemma cert_ST : cert_ok Server true = true. Proof. vm_compute. reflexivity. Qed.
@@ -84,8 +114,15 @@ Proof. destruct r, idk; [apply cert_CT | apply cert_CF | apply cert_ST | apply c
 Theorem reach_ok r idk s : reach pnext (pinit r idk) s -> p_ok s = true.
 Proof.
   pose proof (cert_all r idk) as H. unfold cert_ok in H.
-  apply andb_true_iff in H as [H H3]. apply andb_true_iff in H as [H1 H2].
+  apply andb_true_iff in H as [H _]. apply andb_true_iff in H as [H H3]. apply andb_true_iff in H as [H1 H2].
   apply (invariant_by_closure ps ps_beq ps_beq_eq hash_ps pnext (pinit r idk) (table_for r idk) p_ok H1 H2 H3).
+Qed.
+
+Theorem reach_shape r idk s : reach pnext (pinit r idk) s -> p_shape s = true.
+Proof.
+  pose proof (cert_all r idk) as H. unfold cert_ok in H.
+  apply andb_true_iff in H as [H H4]. apply andb_true_iff in H as [H _]. apply andb_true_iff in H as [H1 H2].
+  apply (invariant_by_closure ps ps_beq ps_beq_eq hash_ps pnext (pinit r idk) (table_for r idk) p_shape H1 H2 H4).
 Qed.
 
 (* the tables are not trivial *)
